@@ -123,3 +123,11 @@ package tree
 //@   property C12
 //@   at call insertNode#2: assert arg5:uint64 == verif_ghost.gSub && verif_ghost.gSubIdx == i
 //@   also_modifies verif_ghost.gSub, verif_ghost.gSubIdx
+
+// chunker.Done: a node written as the root is canonical — a leaf, or an internal node with more than one child
+//@ func (*chunker).Done
+//@   property C12
+//@   at call writeNewNode: assert tc.level == 0 || len(tc.builder.keys) > 1
+// and an internal level holding a single child is never written: it is replaced by its canonical descendant,
+// whether or not the chunker was started from a cursor (same content, same tree, whatever the edit history)
+//@   at call getCanonicalRoot: assert tc.level != 0 && len(tc.builder.keys) <= 1
